@@ -856,16 +856,21 @@ def pair(repo: Repo) -> List[Ob]:
          obs.append(bad("PAIR", ro, f"transpose-swap@{lvl}", P, tr[0], f"permutation {perm} / index swap present={swap}: tensor axes and member indices are not exchanged together (expected {want} with a swap)")))
     # ProductState.reorder: state_objs replaced by the list the string was generated for
     pr = repo.func("ProductState.reorder")
-    for c in [n for n in walk_no_nested(pr.node) if isinstance(n, ast.If) and "expansion_level" in src(n.test)]:
-        gen = [x for b in c.body for x in [b] + list(walk_no_nested(b)) if isinstance(x, ast.Call) and (dotted(x.func) or "").split(".")[-1].startswith("reorder_")]
-        if not gen:
-            continue
+    pcfg = CFG(pr.node)
+    cnt: Dict[str, int] = {}
+    for gn in sorted([nd for nd in pcfg.nodes for x in walk_node(nd) if isinstance(x, ast.Call) and (dotted(x.func) or "").split(".")[-1].startswith("reorder_")], key=lambda nd: nd.lineno):
+        g = next(x for x in walk_node(gn) if isinstance(x, ast.Call) and (dotted(x.func) or "").split(".")[-1].startswith("reorder_"))
         n_pairs += 1
-        lvl = "Vector" if "Vector" in src(c.test) else "Matrix"
-        new = [b for b in c.body if isinstance(b, ast.Assign) and src(b.targets[0]) == "self.state_objs"]
-        good = bool(new) and len(gen[0].args) == 2 and src(new[0].value) == src(gen[0].args[1])
-        (obs.append(ok("PAIR", pr, f"order-update@{lvl}", P, gen[0], "member list is replaced by the order the tensor was permuted to")) if good else
-         obs.append(bad("PAIR", pr, f"order-update@{lvl}", P, gen[0], "the tensor is permuted to one order while self.state_objs is set to another (or not updated)")))
+        lvl = "Vector" if (dotted(g.func) or "").endswith("vector") else "Matrix"
+        cnt[lvl] = cnt.get(lvl, 0) + 1
+        key = f"order-update@{lvl}" + (f"#{cnt[lvl]}" if cnt[lvl] > 1 else "")
+        # every path from the generator call to the end of the function replaces the member list by the order the string was built for
+        upd = {nd for nd in pcfg.nodes if nd.kind == "stmt" and isinstance(nd.ast, ast.Assign) and any(src(t) == "self.state_objs" for t in nd.ast.targets)
+               and len(g.args) == 2 and src(nd.ast.value) == src(g.args[1])}
+        other = {nd for nd in pcfg.nodes if nd.kind == "stmt" and isinstance(nd.ast, ast.Assign) and any(src(t) == "self.state_objs" for t in nd.ast.targets)} - upd
+        good = bool(upd) and pcfg.always_followed_by(gn, upd) and not (pcfg.reachable([m for m, _ in pcfg.succ[gn]]) & other)
+        (obs.append(ok("PAIR", pr, key, P, g, "member list is replaced by the order the tensor was permuted to")) if good else
+         obs.append(bad("PAIR", pr, key, P, g, "the tensor is permuted to one order while self.state_objs is set to another (or not updated)")))
     refresh = any(method_call(x) and method_call(x)[1] == "update_all_indices" for x in walk_no_nested(pr.node))
     (obs.append(ok("PAIR", pr, "indices-refreshed", ("C02", "C13"), pr.node, "indices are refreshed after reordering")) if refresh else
      obs.append(bad("PAIR", pr, "indices-refreshed", ("C02", "C13"), pr.node, "ProductState.reorder no longer refreshes the member indices")))
